@@ -27,7 +27,8 @@ func init() {
 }
 
 type pdHint struct {
-	absentPrefix bool // IAPrefix with length 0: the library yields a nil prefix
+	life         uint32 // preferred and valid lifetime the client puts into the IAPrefix (seconds)
+	absentPrefix bool   // IAPrefix with length 0: the library yields a nil prefix
 	ip           net.IP
 	plen         int
 	class        string
@@ -46,7 +47,8 @@ func iapdPayload(ia pdIA) []byte {
 	b.Write(make([]byte, 8)) // T1, T2
 	for _, h := range ia.hints {
 		var p bytes.Buffer
-		p.Write(make([]byte, 8)) // lifetimes
+		binary.Write(&p, binary.BigEndian, h.life) // preferred lifetime
+		binary.Write(&p, binary.BigEndian, h.life) // valid lifetime
 		if h.absentPrefix {
 			p.WriteByte(0)
 			p.Write(make([]byte, 16))
@@ -92,7 +94,7 @@ func runPrefix(c *Ctx) {
 	c.SetCases("From Verif Require Import Base PrefixPlugin PrefixRun.", "PrefixRun.mismatches")
 	c.shard = 30
 	r := c.R
-	pools := []pfxPool{{"2001:db8::/62", 64}, {"2001:db8:0:100::/56", 64}, {"fd00::/126", 128}, {"2001:db8:1::/48", 56}, {"2001:db8::/63", 64}, {"2001:db8:ffff:ff00::/61", 64}}
+	pools := []pfxPool{{"2001:db8::/62", 64}, {"2001:db8:0:100::/56", 64}, {"2001:db8:0:218::/60", 64} /* written with host bits set */, {"fd00::/126", 128}, {"2001:db8:1::/48", 56}, {"2001:db8::/63", 64}, {"2001:db8:ffff:ff00::/61", 64}}
 	nh := c.Scale(60, 1500)
 	for hi := 0; hi < nh; hi++ {
 		runPrefixHistory(c, hi, pools[r.Intn(len(pools))], 1+r.Intn(c.Scale(30, 40)), nil)
@@ -249,6 +251,9 @@ func runPrefixHistory(c *Ctx, hi int, pl pfxPool, nmsgs int, script []pfxScript)
 				nhint := []int{0, 0, 1, 1, 1, 2, 3}[r.Intn(7)]
 				for j := 0; j < nhint; j++ {
 					h := genHint(sc.client)
+					if r.Pct(30) {
+						h.life = []uint32{60, 1, 3600, 86400, 0xffffffff}[r.Intn(5)]
+					}
 					if j > 0 && r.Pct(15) {
 						h = ia.hints[0]
 						h.class = "duplicate"
@@ -370,7 +375,7 @@ func runPrefixHistory(c *Ctx, hi int, pl pfxPool, nmsgs int, script []pfxScript)
 		select {
 		case <-done:
 		case <-time.After(10 * time.Second):
-			c.vio("C09", "prefix-handler-blocked", "the prefix handler did not return within 10 s (a lock left held by an earlier request?)", rec())
+			c.Violate("prefix-handler-blocked", "the prefix handler did not return within 10 s (a lock left held by an earlier request?)", rec())
 			return
 		}
 		ops = append(ops, fmt.Sprintf("PReq %s %s %s", vZ(t0.UnixNano()), clientTxt, vList(pdItems)))
@@ -453,8 +458,10 @@ func runPrefixHistory(c *Ctx, hi int, pl pfxPool, nmsgs int, script []pfxScript)
 				if !aligned || ones < pl.page {
 					c.vio("C08", "prefix-shape", fmt.Sprintf("delegated %v is not aligned to / larger than the allocation size /%d", p.Prefix, pl.page), rec())
 				}
-				if p.PreferredLifetime <= 0 || p.PreferredLifetime != p.ValidLifetime || p.ValidLifetime > 3600*time.Second {
-					c.vio("C08", "prefix-lifetime", fmt.Sprintf("delegated %v has preferred %v valid %v", p.Prefix, p.PreferredLifetime, p.ValidLifetime), rec())
+				// every delegated prefix is valid for the full hour from now (never less than what remained,
+				// whatever lifetime the client wrote into its hint)
+				if p.PreferredLifetime <= 3590*time.Second || p.PreferredLifetime != p.ValidLifetime || p.ValidLifetime > 3600*time.Second {
+					c.Violate("prefix-lifetime", fmt.Sprintf("delegated %v has preferred %v valid %v (every delegation is valid for the hour from now: never shorter than what remained)", p.Prefix, p.PreferredLifetime, p.ValidLifetime), rec())
 				}
 				if o, ok := owner[blk]; ok && o != cl {
 					c.vio("C08", "prefix-overlap", fmt.Sprintf("block %d (%v) delegated to client %d while client %d holds it", blk, p.Prefix, cl, o), rec())
